@@ -105,7 +105,12 @@ func TestVerifReport(t *testing.T) {
 		name string
 	}
 	langs := []lc{{language.English, nil, "default"}, {language.English, []ReportOptionsFunc{WithOptionsLanguage(language.English)}, "en"},
-		{language.Japanese, []ReportOptionsFunc{WithOptionsLanguage(language.Japanese)}, "ja"}, {language.French, []ReportOptionsFunc{WithOptionsLanguage(language.French)}, "fr"}}
+		{language.Japanese, []ReportOptionsFunc{WithOptionsLanguage(language.Japanese)}, "ja"}, {language.French, []ReportOptionsFunc{WithOptionsLanguage(language.French)}, "fr"},
+		// several options: applied in order, the last one wins
+		{language.Japanese, []ReportOptionsFunc{WithOptionsLanguage(language.English), WithOptionsLanguage(language.Japanese)}, "en,ja"},
+		{language.English, []ReportOptionsFunc{WithOptionsLanguage(language.Japanese), WithOptionsLanguage(language.English)}, "ja,en"},
+		{language.Japanese, []ReportOptionsFunc{WithOptionsLanguage(language.English), WithOptionsLanguage(language.French), WithOptionsLanguage(language.Japanese)}, "en,fr,ja"},
+		{language.English, []ReportOptionsFunc{WithOptionsLanguage(language.Japanese), WithOptionsLanguage(language.French), WithOptionsLanguage(language.Japanese), WithOptionsLanguage(language.English)}, "ja,fr,ja,en"}}
 	n := 0
 	for _, v := range vecs {
 		em, err := metric.NewEnvironmental().Decode(v)
@@ -147,7 +152,7 @@ func reportProbe(st *SpecTables, repo string) (string, bool) {
 	}
 	out, err := runOverlayTest(repo, "v3/report", reportProbeSrc(st), "TestVerifReport")
 	hit := strings.Contains(out, "REPORT-HIT")
-	rep := "report probe on the real code (11 vectors (incl. scores 0, 4.0, 9.0, 10 on the band boundaries) x 4 language settings x every field of the three report levels and their embedded reports; oracle: the name function of the metric the field is named after, the same level's Encode/Score/Severity):\n"
+	rep := "report probe on the real code (11 vectors (incl. scores 0, 4.0, 9.0, 10 on the band boundaries) x 8 language settings (incl. option lists of 2, 3 and 4 options, the last one wins) x every field of the three report levels and their embedded reports; oracle: the name function of the metric the field is named after, the same level's Encode/Score/Severity):\n"
 	switch {
 	case hit:
 		i := strings.Index(out, "REPORT-HIT")
